@@ -5,7 +5,7 @@ CONSTANTS
   StartVals = {0, 1, 3}
   Defaults = {0, 1}
   FamIdx = {1, 2, 3, 4, 5, 6}
-  Bounds <- BoundsInf12
+  Bounds <- BoundsInf1
 SPECIFICATION FairSpec
 PROPERTY Termination
 CHECK_DEADLOCK FALSE
